@@ -30,6 +30,7 @@ fn run(ctx: &mut Ctx) {
         let mut prog = gen_program(rng, &opts);
         let mut steered = None;
         if rng.chance(1, 3) { steered = steer_offset(rng, &mut prog, false); }
+        if rng.chance(1, 8) { let sfx = *rng.pick(&["é", "φ", "文", "ï2"]); widen_labels(&mut prog.stmts, sfx); ctx.count("programs.with-non-ascii-labels"); }
         let a = analyze(&prog.stmts);
         ctx.eval();
         if a.reject { ctx.count("generator.produced-ill-formed"); return; }
